@@ -288,8 +288,9 @@ class Segment:
         self.start_tree = start_tree        # None = fresh
         self.model0 = model                 # {"mem": dict, "disk": dict, "pinfo": {pn: pinfo}, "manifest": {...}} or None
         self.pid = pid
-        self.completion = completion
+        self.completion = spec.get("completion", completion)
         self.label = label
+        self.case_filter = None
         self.n = spec["nintf"] + 1
         self.steps = []
         self.variant = None
@@ -322,6 +323,14 @@ class Segment:
             return False
         self.events = res["events"]
         self.split_steps()
+        for st in self.steps:
+            mm = st.get("inflight_mismatch")
+            if mm:
+                self.ctx.fail("C08:inflight-job-missing-from-restart-record",
+                              f"restart.toml written at step {mm['cstep']} records in-flight jobs {mm['recorded']} but "
+                              f"{mm['in_flight']} are in flight (process life {self.label}, after {len(self.chain)} crash(es))",
+                              {"spec": self.spec, "chain": self.chain, "completion": self.completion, "check": "inflight", **mm})
+                break
         return True
 
     def split_steps(self):
@@ -346,7 +355,7 @@ class Segment:
             cur["ev"].append(e["k"])
             e["step"] = len(steps) - 1
         self.steps = steps
-        # variant of write_toml, read off the trace
+        # variant of write_toml, read off the trace (and: does every record list the jobs in flight?)
         self.variant = None
         for st in steps:
             evs = [ev[i] for i in st["ev"] if "write_toml" in ev[i]["tags"]]
@@ -396,6 +405,10 @@ class Segment:
                 half_torn = bool(hb) and not hb.endswith(b"\n")
             r_ev = [e for e in evs if "write_toml" in e["tags"] and e["op"] == "open-w"]
             rec = parse_current(r_ev[0].get("text", "")) if r_ev else None
+            if r_ev and rec is not None and "inflight" in r_ev[0]:
+                want = sorted((sorted(j["ens"]), sorted(j["paths"])) for j in r_ev[0]["inflight"])
+                got = sorted((sorted(x - 1 for x in l[0]), sorted(l[1])) for l in rec["locked"])
+                st["inflight_mismatch"] = None if want == got else {"in_flight": want, "recorded": got, "cstep": rec["cstep"]}
             dels = [e for e in evs if e["op"] in ("remove", "rmdir") and "_move_path" not in e["tags"]]
             st.update(blocks=blocks, rows=rows, half_rows=half_rows, half_torn=half_torn, rec=rec, has_del=bool(dels),
                       inc=st["key"][0] == "step")
@@ -555,6 +568,8 @@ class Segment:
         for e in self.events:
             if limit_events is not None and e["k"] >= limit_events:
                 break
+            if self.case_filter is not None and not self.case_filter(e):
+                continue
             if e["step"] is None:
                 if "write_header" in e["tags"]:
                     continue
@@ -869,7 +884,10 @@ def judge(ctx, seg, cases, hist_id):
             ctx.fail("C08:inflight-job-not-reissued", f"restart record has in-flight {want_jobs}, first jobs issued {got_jobs}", replay)
         # ---- continuation
         if res.get("phase") != "finished":
-            ctx.fail(f"C08:continuation-raises:{(res.get('error') or '?').split(':')[0]}",
+            err = res.get("error") or "?"
+            sig = ("C08:stale-files-of-crashed-store-break-delete-old-all" if "Directory not empty" in err
+                   else f"C08:continuation-raises:{err.split(':')[0]}")
+            ctx.fail(sig,
                      f"after crash at effect {c['k']} ({c['mode']}, {e['op']} {e['path']}) of a {kind} step the restart "
                      f"started but the continued run died: {res.get('error')}", replay)
             continue
@@ -927,11 +945,12 @@ def fresh_initial(work, spec, reg):
     return initial_model(spec, root, reg)
 
 
-def run_history(ctx, work, spec0, need, hist_id, depth2=0, limit2=60):
+def run_history(ctx, work, spec0, need, hist_id, depth2=0, limit2=45, case_filter=None):
     seg = pick_history(ctx, work, spec0, need)
     if seg is None:
         ctx.disagree({"spec": spec0}, "no seed produced all step kinds", sorted(need))
         return
+    seg.case_filter = case_filter
     spec = seg.spec
     sub = seg.work
     seg.model0 = fresh_initial(sub, spec, seg.reg)
@@ -1003,9 +1022,13 @@ def run(ctx):
         base_spec = {"nintf": 3, "steps": 9, "moves": ["sh", "sh", "wf"], "workers": 1}
         plans = [
             ("noDel", dict(base_spec, delete_old=False, delete_old_all=False), need, 0),
-            ("del", dict(base_spec, delete_old=True, delete_old_all=False, steps=10), need | {"del"}, 2),
-            ("delAll", dict(base_spec, delete_old=True, delete_old_all=True, steps=10), need | {"del"}, 3),
+            ("del", dict(base_spec, delete_old=True, delete_old_all=False, steps=10), need | {"del"}, 1),
+            ("delAll", dict(base_spec, delete_old=True, delete_old_all=True, steps=10), need | {"del"}, 2),
             ("w2", dict(base_spec, workers=2, steps=8, delete_old=True, delete_old_all=True), set(), 0),
+            # two workers, results consumed youngest-first: records written after a restart
+            ("w2lifo", dict(base_spec, workers=2, steps=8, delete_old=False, completion="lifo"), set(), 2),
+            # long continuation after a crash inside _move_path (stale files of the crashed store)
+            ("stale", dict(base_spec, steps=40, delete_old=True, delete_old_all=True), set(), 0),
         ]
         if not ctx.quick:
             for r in range(2):
@@ -1017,10 +1040,14 @@ def run(ctx):
                 ]
             plans += [("n4", dict(base_spec, nintf=4, moves=["sh", "sh", "wf", "sh"], steps=16, delete_old=True,
                                   delete_old_all=True), need | {"del"}, 6)]
+        def stale_filter(e):
+            return e["op"] == "move" and "_move_path" in e["tags"] and 2 <= (e.get("cstep") or 0) <= (8 if ctx.quick else 20)
+
         for hist_id, spec, nd, depth2 in plans:
             work = os.path.join(base, hist_id)
             os.makedirs(work)
-            run_history(ctx, work, spec, nd, hist_id, depth2=depth2)
+            run_history(ctx, work, spec, nd, hist_id, depth2=depth2,
+                        case_filter=stale_filter if hist_id.startswith("stale") else None)
             shutil.rmtree(work, ignore_errors=True)
         ctx.exhaustive = False
         if ctx.disagreements:
